@@ -927,6 +927,7 @@ def async_background_batcher(
             max_batch_size=max_batch_size,
             max_concurrent_batches=max_concurrent_batches,
             batch_timeout=batch_timeout,
+            retention_timeout=retention_timeout,
         )
 
     batchers: 'WeakKeyDict[Loop, AsyncBackgroundBatcher[A_contra, R_co]]' \
